@@ -24,7 +24,7 @@ func propOfScenario(sc string) string {
 }
 
 var props = map[string]propSpec{
-	"C03": {level: "exploration", quickRuns: 2500, thoroughRuns: 60000, runLimit: 30 * time.Second,
+	"C03": {scenarios: []string{"C03", "C03", "C08"}, level: "exploration", quickRuns: 2500, thoroughRuns: 60000, runLimit: 30 * time.Second,
 		requiredProbes: []string{"kind:mut", "kind:del", "kind:exp", "filter:reserved-prefix", "filter:skipuntil", "partial-prefix-delivered", "ack-in-a-later-step-than-delivery"}},
 	"C04": {scenarios: []string{"C04", "C04", "C04r"}, level: "exploration", quickRuns: 2500, thoroughRuns: 60000, runLimit: 30 * time.Second,
 		requiredProbes: []string{"stale-ack", "repeated-ack", "ack-burst", "absorbed-event-tracked", "offsets-api-compared", "seq-gauge-compared"}},
@@ -46,4 +46,6 @@ var props = map[string]propSpec{
 		requiredProbes: []string{"rollback-honoured", "rollback:R=F", "rollback:R=0", "rollback:R<F", "event-exactly-at-F", "second-rollback", "re-request-failed"}},
 	"C15": {level: "fault_enumeration", quickRuns: 2000, thoroughRuns: 40000, runLimit: 30 * time.Second,
 		requiredProbes: []string{"startup-fault:none", "startup-fault:ckpt-above-high", "startup-fault:load-error", "startup-fault:load-silent", "startup-fault:seqnos-error", "startup-fault:flog-error", "startup-fault:sreq-error", "startup-fault:sreq-silent", "startup-fault:bad-membership", "startup-fault:bad-metadata"}},
+	"C12": {level: "exploration", quickRuns: 2500, thoroughRuns: 60000, runLimit: 30 * time.Second,
+		requiredProbes: []string{"transient-end", "final-end", "reopened-after-transient-end", "repeated-transient-end-same-vb", "client-stopped-after-last-final-end", "finite-completion", "active-streams-judged", "end-cause:socket-closed", "five-reopen-failures"}},
 }
